@@ -257,6 +257,27 @@ def run(ctx):
             ctx.violation('speckle_contrast of a uniform image of value %g is %r (expected 0)' % (val, u), {'value': val},
                           {'class': 'speckle_contrast', 'what': 'uniform_zero', 'nan': bool(math.isnan(u))})
 
+    # ---- the value of a loss for float32 images (what load_image returns) does not depend on global settings of torch: default dtype float64 (a double
+    # precision pipeline elsewhere in the program), grad mode switched off; each entry returns under these settings on the unchanged tree
+    from ..lib import settings as ST
+    import odak.learn.perception as LPs
+    import odak.learn.tools as LTs
+    g_ = torch.Generator().manual_seed(ctx.seed + 171)
+    for ch_ in (3, 1):
+        im_, tg_ = torch.rand(1, ch_, 64, 64, generator=g_, dtype=torch.float32), torch.rand(1, ch_, 64, 64, generator=g_, dtype=torch.float32)
+        entries = [('BlurLoss', lambda: LPs.BlurLoss()(im_, tg_, gaze=[0.4, 0.6])),
+                   ('BlurLoss(blur_source) at identity', lambda: LPs.BlurLoss(blur_source=True)(im_, im_.clone(), gaze=[0.4, 0.6])),
+                   ('BlurLoss(equi)', lambda: LPs.BlurLoss(equi=True)(im_, tg_, gaze=[0.4, 0.2])),
+                   ('MetamericLoss', lambda: LPs.MetamericLoss()(im_, tg_, gaze=[0.4, 0.6])),
+                   ('MetamericLossUniform', lambda: LPs.MetamericLossUniform()(im_, tg_)),
+                   ('total_variation_loss', lambda: LTs.total_variation_loss(im_[0, 0])),
+                   ('histogram_loss', lambda: LTs.histogram_loss(im_, tg_, bins=8, limits=[0., 1.])),
+                   ('wrapped_mean_squared_error', lambda: LTs.wrapped_mean_squared_error(im_ * 6.28, tg_ * 6.28))]
+        for nm_, f_ in entries:
+            # single-channel float32 images are rejected by the metameric losses when the default dtype is float64 (their pyramid filters are built in the
+            # default dtype and convolved with the image as it is; RGB images pass through rgb_2_ycrcb first): a rejected configuration, not judged
+            ST.differential(ctx, 'C17 %s, %d channel float32 images' % (nm_, ch_), f_, rtol=1e-3, atol=1e-6, cls={'loss': nm_},
+                            must_return=not (ch_ == 1 and nm_.startswith('Metameric')))
     __import__('harness.props.genlosses', fromlist=['x']).check_generated_losses(ctx)   # regenerated loss formulas vs /repo
     __import__('harness.props.genstatemachines', fromlist=['x']).check_generated_state_machines(ctx)   # regenerated state machines vs /repo
 
